@@ -9,6 +9,7 @@ tensors' own names); structural isomorphism with from_proto(to_proto(m)).
 
 from __future__ import annotations
 
+import ml_dtypes
 import numpy as np
 import onnx_ir as ir
 from onnx_ir import _core
@@ -28,7 +29,9 @@ def _tensor_sig(t):
         elif isinstance(t, ir.ExternalTensor):
             payload = ("external", str(t.location), t.offset, t.length)
         else:
-            payload = bytes(t.tobytes())
+            # the byte string and the element values in logical order: two observations that packing or a strided
+            # backing array can make disagree
+            payload = (bytes(t.tobytes()), np.ascontiguousarray(t.numpy()).tobytes())
     except Exception as e:  # noqa: BLE001
         payload = ("<err>", type(e).__name__)
     return (t.name or None, int(t.dtype), tuple(dim_repr(d) for d in t.shape.dims), payload, tuple(sorted((t.metadata_props or {}).items())), t.doc_string or None)
@@ -336,6 +339,10 @@ def tensor_impl_models(root):
         "PackedTensor": lambda: ir.PackedTensor(np.array([0x21, 0x43, 0x05], dtype=np.uint8), ir.DataType.INT4, shape=ir.Shape([5]), name="pk"),
         "StringTensor": lambda: ir.StringTensor([b"a", b"", b"\xff\x00"], shape=ir.Shape([3]), name="st"),
         "TensorProtoTensor": lambda: ir.serde.deserialize_tensor(gp.tensor(gp.TP.INT64, [2], "int64_data", name="tp", doc="d", meta=2)),
+        # sub-byte element types over arrays whose memory order is not the logical order (a transposed view, Fortran order)
+        "Tensor[int4 transposed view]": lambda: ir.Tensor((np.arange(6, dtype=np.int8) - 3).reshape(2, 3).astype(ml_dtypes.int4).T, dtype=ir.DataType.INT4, name="q4t"),
+        "Tensor[uint2 fortran order]": lambda: ir.Tensor(np.asfortranarray((np.arange(12, dtype=np.uint8) % 4).reshape(3, 4).astype(ml_dtypes.uint2)), dtype=ir.DataType.UINT2, name="q2f"),
+        "Tensor[float transposed view]": lambda: ir.Tensor(arr.copy().T, name="ft"),
     }
     for nm, mk in impls.items():
         for as_attr in (False, True):
